@@ -6,7 +6,7 @@ CONSTANTS
   Counts = {0, 1, 2}
   RangeLens = {0, 1, 2}
   Reserves = {0, 3, 4, 7}
-  TmpLens = {0, 1, 3, 4}
+  TmpLens = {0, 3, 4}
   TmpReserves = {0, 5}
 INIT Init
 NEXT Next
